@@ -83,6 +83,25 @@ def values(rec, n):
     raise KeyError(k)
 
 
+def specials(rec, v):
+    """unusual but passable values: sentinels, blueshifts, non-finite numbers, out-of-range angles.  A callee may
+    clip, mask or reject them -- in its own copy."""
+    if not rec.get("special") or v.dtype.kind != "f" or v.ndim != 1 or v.size == 0:
+        return v
+    g = np.random.Generator(np.random.PCG64(rec["seed"] + 7))
+    k = rec["kind"]
+    pool = {"z": [-1.0, -9999.0, 0.0, -0.01], "x": [np.nan, np.inf, -np.inf, -99.0, 0.0], "w": [0.0, -1.0],
+            "lon": [-10.0, 360.0, 720.5, -0.0], "lat": [90.0, -90.0, 0.0], "tabx": []}.get(k, [])
+    if not pool:
+        return v
+    m = g.random(v.size) < 0.3
+    if not m.any():
+        m[g.integers(0, v.size)] = True
+    v = v.copy()
+    v[m] = g.choice(np.array(pool), int(m.sum()))
+    return v
+
+
 def _present(vals, spec):
     """present.make plus the local kinds: zerod (0-d array of the first element), fortran."""
     kind = spec.get("kind", "plain")
@@ -485,7 +504,7 @@ def _(E, a, o):
 
 @site("HTM.match(perpoint)", "htm", ["lon", "lat", "lon", "lat", "w"])
 def _(E, a, o):
-    return _htm(E, o).match(a[0], a[1], a[2], a[3], a[4], maxmatch=o.get("maxmatch", -1))
+    return _htm(E, o, cap=6).match(a[0], a[1], a[2], a[3], a[4], maxmatch=o.get("maxmatch", -1))   # radii <= 5 deg
 
 
 @site("HTM.bincount", "htm", ["lon", "lat", "lon", "lat", "w"])
@@ -568,7 +587,7 @@ def plan(S, prop, mode, tier, avoid):
             if have and chance(r, 0.6):
                 idx.append(pick(r, have))
             else:
-                rec = {"kind": k, "seed": r.randrange(1 << 30), "pres": draw_pres(r, k)}
+                rec = {"kind": k, "seed": r.randrange(1 << 30), "pres": draw_pres(r, k), "special": chance(r, 0.25)}
                 if k == "cov":
                     rec["d"] = r.randrange(1, 5)
                 pool.append(rec)
@@ -599,7 +618,13 @@ def execute(script, run, env):
     def get(i):
         if i not in live:
             rec = script["pool"][i % len(script["pool"])]
-            vals = values(rec, n)
+            vals = specials(rec, values(rec, n))
+            if rec.get("special"):
+                run.fault("special_values_in_a_caller_array")
+            if rec["pres"]["kind"] == "int" and vals.dtype.kind == "f":
+                # integer presentation: non-finite specials become modest sentinels (an integer 2**31 would
+                # make a histogram allocate billions of bins -- a cost matter, not an ownership one)
+                vals = np.nan_to_num(vals, nan=0.0, posinf=99.0, neginf=-99.0)
             if rec["kind"] == "cov" and rec["pres"]["kind"] in ("zerod", "int"):
                 rec = dict(rec, pres=dict(rec["pres"], kind="plain"))
             live[i] = _present(vals, rec["pres"]) + (rec,)
@@ -668,6 +693,10 @@ def simplify(script):
                 del o2[key]
                 yield dict(script, ops=ops[:i] + [dict(op, o=o2)] + ops[i + 1:])
     for j, p in enumerate(script["pool"]):
+        if p.get("special"):
+            pool = list(script["pool"])
+            pool[j] = dict(p, special=False)
+            yield dict(script, pool=pool)
         if p["pres"]["kind"] != "plain":
             for alt in ("plain", "swapped", "strided"):
                 if alt != p["pres"]["kind"]:
